@@ -8,8 +8,10 @@ VARIABLES l, bad, dec
 
 Cmp(name, r, want) == IF r.exc # "" THEN "bad:" \o name \o ":exception:" \o r.exc
                       ELSE IF r.c = want THEN "" ELSE "bad:" \o name
-First(rs) == IF \E i \in 1..Len(rs) : rs[i] # ""
-             THEN rs[CHOOSE i \in 1..Len(rs) : rs[i] # "" /\ \A j \in 1..(i - 1) : rs[j] = ""] ELSE "ok"
+\* Pick: the first reason of a list ("" when there is none); First: the verdict of the event
+Pick(rs) == IF \E i \in 1..Len(rs) : rs[i] # ""
+            THEN rs[CHOOSE i \in 1..Len(rs) : rs[i] # "" /\ \A j \in 1..(i - 1) : rs[j] = ""] ELSE ""
+First(rs) == IF Pick(rs) = "" THEN "ok" ELSE Pick(rs)
 Distinct(fs) == \A i \in 1..Len(fs) : \A j \in 1..Len(fs) : i # j => fs[i].c # fs[j].c
 AsFac(cs) == [i \in 1..Len(cs) |-> [c |-> cs[i], m |-> 1]]
 
@@ -27,7 +29,7 @@ CheckEv(e) ==
                       ELSE IF r.quo.c # dm.q THEN "bad:quo" ELSE IF r.rem.c # dm.r THEN "bad:rem" ELSE ""
              \* (a constant modulus gives the trivial ring: not a meaningful argument)
              modOK == IF Len(b) <= 1 THEN ""
-                      ELSE First(<<Cmp("pow_mod", r.powmod, GDivMod(GPow(a, k, p), b, p).r),
+                      ELSE Pick(<<Cmp("pow_mod", r.powmod, GDivMod(GPow(a, k, p), b, p).r),
                                    Cmp("compose_mod", r.compmod, GCompose(a, a, 1, b, p))>>)
              gcdOK == IF Len(a) = 0 /\ Len(b) = 0 THEN ""
                       ELSE Cmp("gcd", r.gcd, GGcd(a, b, p))
